@@ -4,8 +4,11 @@ Symbolic (C02 harness): for every public mutator, on a symbolic pre-state, for E
 athletes (the only state that is not observable): an accepted call appends exactly itself to the log, a refused call
 appends nothing and changes nothing, and the post-state equals the rule machine's step - a function of the observable
 pre-state and the argument only.  Hence (induction over the log) replaying the log reproduces the observables.
+Jumping order: a z3 lemma on the abstract rule machine (to which the real class is proved equal step by step): two
+adjacent trials of different athletes commute - both orders accepted, same complete state - for any state satisfying
+the invariant, N = 2, 3; adjacent transpositions generate every interleaving that keeps each athlete's own order.
 Bounded (labelled so): on random competition prefixes of the real class - from_actions replay, the to_matrix /
-from_matrix round trip (explicit pass marks aside), `trials`, and all (small) or many random (large) per-height
+from_matrix round trip (explicit pass marks aside), `trials`, and (as a second line for the lemma) per-height
 interleavings of the athletes' trial sequences: all accepted, same cards, state and places."""
 import itertools
 import random
@@ -174,7 +177,78 @@ def replay(rep):
     return C02.replay(rep)
 
 
+def unit_swap(args):
+    """jumping-order independence as a lemma on the abstract rule machine (which the C02 obligations prove equal, step by
+    step, to the real class): for athletes a != b, marks p, q and ANY machine state satisfying the invariant, if p(a); q(b)
+    is accepted then q(b); p(a) is accepted and both orders end in the same complete state.  Adjacent transpositions generate
+    every interleaving that keeps each athlete's own order, so all of them are accepted and agree.  Also: the fork-free encoding
+    with a symbolic state used here coincides with specs/highjump.step_rank for every concrete state; hypotheses are satisfiable."""
+    import itertools
+    import z3
+    from specs import highjump_z3 as Z
+    from pyvc.core import Obligation, discharge, smt2_of
+    N, = args
+
+    def mkj(nm):
+        return SP.JV(nxA=z3.Array(nm + '_nx', z3.IntSort(), z3.IntSort()), tmA=z3.Array(nm + '_tm', z3.IntSort(), z3.IntSort()), n=z3.Int(nm + '_n'),
+                     best=z3.Real(nm + '_best'), best_idx=z3.Int(nm + '_bi'), out=z3.Bool(nm + '_out'), done=z3.Bool(nm + '_done'),
+                     lim=z3.Int(nm + '_lim'), cf=z3.Int(nm + '_cf'), place=z3.Int(nm + '_pl'))
+    js = [mkj('j%d' % k) for k in range(N)]
+    ps = [z3.Function('ps%d' % k, z3.IntSort(), z3.IntSort()) for k in range(N)]
+    s, H, bar = z3.Int('s'), z3.Int('H'), z3.Real('bar')
+    cs = [H >= 1, z3.And(s >= 1, s <= 3)]
+    for v in js:
+        cs += [SP.inv_jumper(v, H), v.place >= 1, v.best >= 0, z3.Implies(v.best_idx < 0, v.best == 0),
+               z3.Implies(z3.Or(s == 1, s == 3), z3.And(v.best <= bar, z3.Implies(v.best == bar, v.done), v.lim == 3))]
+    cs.append(z3.Implies(s == 3, z3.Sum([z3.If(v.out, 0, 1) for v in js]) == 1))
+    inv = z3.And(*cs)
+    inputs = {'s': s, 'H': H, 'bar': bar}
+    for k, v in enumerate(js):
+        for f in ('n', 'best', 'best_idx', 'out', 'done', 'lim', 'cf', 'place'):
+            inputs['j%d_%s' % (k, f)] = getattr(v, f)
+    out = []
+    sample = None
+    for a, b in itertools.combinations(range(N), 2):
+        for p, q in itertools.product('ox-r', repeat=2):
+            l1, s1, j1 = Z.trial(s, H, bar, js, ps, a, p)
+            l2, s2, j2 = Z.trial(s1, H, bar, j1, ps, b, q)
+            m1, t1, k1 = Z.trial(s, H, bar, js, ps, b, q)
+            m2, t2, k2 = Z.trial(t1, H, bar, k1, ps, a, p)
+            goal = z3.And(m1, m2, s2 == t2, *[Z.same_view(x, y, H) for x, y in zip(j2, k2)])
+            ob = Obligation('rule-machine/adjacent-trials-of-different-athletes-commute[%s then %s]' % (p, q), 'lemma', [inv, l1, l2], goal)
+            r = discharge(ob, inputs, 60000)
+            r.pop('_z3model', None)
+            r.pop('_solver', None)
+            r['ctx'] = dict(m='swap', N=N, state='any', bi=None)
+            out.append(r)
+            if sample is None and r['verdict'] == 'proved' and N == 2:
+                sm = smt2_of(ob)
+                if len(sm) < 12000:
+                    sample = dict(unit='swap lemma N=2', obligation=ob.name, verdict='unsat', smt2=sm)
+            sol = z3.Solver()
+            sol.set('timeout', 20000)
+            sol.add(inv, l1, l2)
+            cv = sol.check()
+            out.append(dict(name='rule-machine/swap-lemma-hypotheses-satisfiable[%s then %s]' % (p, q), kind='cover', backend='z3', time=0.0, model=None,
+                            verdict='proved' if cv == z3.sat else ('unknown' if cv == z3.unknown else 'refuted'), ctx=dict(m='swap', N=N, state='any', bi=None)))
+    # consistency of the symbolic-state encoding with specs/highjump.step_rank
+    for st in ('started', 'jumpoff', 'won'):
+        cases, fin = SP.step_rank(st, js, ps, H)
+        s2, fin2 = Z.rank(z3.IntVal(Z.S[st]), js, ps, H)
+        goal = z3.And(*([z3.Implies(c, s2 == Z.S[nm]) for c, nm in cases] + [Z.same_view(x, y, H) for x, y in zip(fin, fin2)]))
+        r = discharge(Obligation('rule-machine/symbolic-state-encoding-equals-step_rank[%s]' % st, 'lemma', [z3.And(*[SP.inv_jumper(v, H) for v in js]), H >= 1], goal), inputs, 60000)
+        r.pop('_z3model', None)
+        r.pop('_solver', None)
+        r['ctx'] = dict(m='swap', N=N, state=st, bi=None)
+        out.append(r)
+    return dict(unit='jumping-order lemma on the rule machine[N=%d]' % N, paths=1, stats={}, outcomes={}, assumptions=[], sample=sample, wall=0.0, fns=[], results=out)
+
+
 def _work(job):
+    if job[0] == 'swap':
+        r = unit_swap(job[1])
+        r['job'] = job
+        return r
     if job[0] == 'standin':
         return ('standin', standin_chunk(job[1]))
     r = C02.UNITS[job[0]](job[1])
@@ -201,6 +275,7 @@ def main(tier, seed):
                         J.append(('trial', (m, N, state, bi, perm)))
     for perm in HC.perms(3):
         J.append(('trial', ('failed', 3, 'started', 1, perm)))
+    J += [('swap', (2,)), ('swap', (3,))]
     n_each = 400 if tier == 'quick' else 6000
     J += [('standin', (seed * 1000 + i, n_each // 8, N)) for i in range(8) for N in (2, 3)]
     results = report.pool_map(_work, J)
